@@ -18,6 +18,9 @@ CHECK = {
             "{short write (1 of several), zero-length return to a write of several octets, -EAGAIN, -EINTR, -EIO, -ENODATA (a hard error like -EIO whose code is the encoder's own end-of-payload sentinel)}, octet and chunk sinks, plus a chunk sink that accepts up to the next "
             "multiple of b octets for b = 1..8 (oracle: a negative result is one of the codes the sink answered in that execution, any of them when it answered several; "
             "after an -EIO/-ENODATA answer success is not accepted; success = a complete encoding reached the sink); "
+            "runs of answers: at every one of the 2n+3 sink call positions k = 1..8 equal answers in a row {zero = took nothing (also to a call offering a single octet), -EAGAIN, -EINTR}, then everything is taken or -EIO is answered once; "
+            "and a sink that takes nothing for ever from that position on (oracle: success = a complete encoding reached the sink; a negative result is a code the sink answered or, behind a zero answer, any negative code (giving up); "
+            "in front of the dead sink running into the driver call budget or any error is admissible, success is not); "
             "RFC1055_WORST_CASE/_CLASSIC/_WITHSOF for every n <= 1100 and for n = 2^k-2..2^k+2, k = 1..62, as size_t and uint64_t, plain and as an expression argument, as long as n <= SIZE_MAX/4 "
             "(lengths with headroom: a conservative macro wraps before 2n+2 does); "
             "the quantifier's 'random full-alphabet payloads up to 1 KiB' is replaced by exhaustive structured families "
@@ -42,9 +45,15 @@ CHECK = {
         "(an implementation keeping the code in a narrower type, mapping unknown codes, or taking a driver's -ENODATA/-EILSEQ for its own sentinel does not return it unchanged)",
         "after a hard source error (any code but -EAGAIN/-EINTR; -ENODATA in the middle of a stream and -EILSEQ included) and after any sink error during decode the statement promises no more than behind a corrupted prefix: the code comes back unchanged, "
         "and the resynchronisation sentences are applied to the delimiters / cut positions behind the point of failure only (the octet a failing sink refused may be lost)",
-        "source drivers answer 1 octet per call or a negative code. Zero-length returns are scripted only as a chunk sink's answer to a write of several octets "
-        "(the endpoint contract: 'will cause the system to retry'); what a 0 from a single-octet source_get_octet/sink_put_octet call means to rfc1055 is not decided by the statement "
-        "('error injection') and is left out; -EAGAIN/-EINTR from a sink during encode may be returned unchanged or retried (sink_put_chunk retries, sink_put_octet returns)",
+        "a decoder may latch a hard driver error until rfc1055_context_init (the statement says the code is returned unchanged, not that the context stays usable): when the call right behind the failing one returns the same hard code again "
+        "without any driver failing, consuming and emitting nothing, the run ends there without a finding, nothing behind the failure is judged, and (E-STATE) the latched context is not a search node; "
+        "any other behaviour behind the failure (another code, octets consumed) is judged as before, a run that neither ends nor latches is C12/hang",
+        "source drivers answer 1 octet per call or a negative code (what a 0 from a single-octet source_get_octet call means to rfc1055 is not decided by the statement and is left out). "
+        "A sink may answer zero = 'took nothing' (the endpoint contract: 'will cause the system to retry'): in the deviation scripts only to a write of several octets, in the run family to every call, k = 1..8 times in a row or for ever. "
+        "The statement's sentences about that: whenever encode reports success a complete encoding reached the sink (an octet or delimiter the sink did not take must not be counted as sent); "
+        "an encoder that gives up behind a zero answer with a negative code of its own is accepted in the run family (the statement names no code and promises no number of offers), "
+        "in front of a sink that takes nothing for ever it may also offer until the driver call budget ends the run; "
+        "-EAGAIN/-EINTR from a sink during encode may be returned unchanged or retried (sink_put_chunk retries, sink_put_octet returns)",
         "'sink errors are returned unchanged' with several sink errors in one encode execution (scripts with two deviations): returning any code the sink really answered satisfies the sentence "
         "(an encoder may still try to close the frame after the first error and meet the second); a negative code the sink never answered, or success after an -EIO answer, is a violation",
         "an interrupted or failed *encode* is not resumed (the statement does not say how); whenever encode reports success under a sink script, what reached the sink must be a complete encoding",
@@ -77,6 +86,7 @@ CHECK = {
                 "interrupt-unframed", "interrupt-at-end-of-stream", "interrupt-twice",
                 "encode-sink-short-write", "encode-sink-zero-write", "encode-sink-interrupt",
                 "encode-sink-hard-error", "encode-sink-two-deviations", "encode-sink-fifo-blocks",
+                "encode-sink-zero-run", "encode-sink-interrupt-run", "encode-sink-dead",
                 "full-alphabet-pair", "fill-worst-case", "ramp", "cycle"]},
         },
         {
